@@ -417,6 +417,27 @@ pub fn all_scenarios(opts: &Opts, st: &mut Stats) -> Vec<(History, Vec<String>)>
         s.simple("cancel_ask", "alice", 2, None, true);
         out.push(s.done());
     }
+    // S18 (run for C16 only: the injected record breaks C08's and C01's state invariants by construction):
+    // an approved ask as a release before fix F1 left it after a partial reject - size reduced, recorded
+    // approver amount still the approved one. Queries must report the record as it is stored, and what a
+    // cancel then pays must be what the query reported.
+    if opts.focus == "C16" {
+        let mut s = Script::new("legacy-approved-ask-with-stale-approver-amount", opts, st);
+        s.market(&Market::default());
+        s.ask(1, "alice", "conv0", "2", 100);
+        s.approve(1, "appr1", 100);
+        s.simple("reject_ask", "exec1", 1, Some(40), true);
+        if let Some(raw) = s.hist.w.store.data.get(&map_key("ask", &uuid(1))).cloned() {
+            let text = String::from_utf8_lossy(&raw).replace("\"amount\":\"60\"", "\"amount\":\"100\"");
+            s.op(Op::PutRaw { key: map_key("ask", &uuid(1)), value: Some(text.into_bytes()) }, true);
+        }
+        // harmless accepted requests after which the query battery runs on the state
+        for n in 10..22u64 {
+            s.bid(n, "bobby", "1", 1);
+            s.simple("cancel_bid", "bobby", n, None, true);
+        }
+        out.push(s.done());
+    }
     // S12: KF1 - pro-rata quotient formed in 28-digit decimals, at amounts where fee x quote ~ 1e27+
     {
         let mut s = Script::new("kf1-large-amount-quotient", opts, st);
